@@ -108,6 +108,17 @@ Theorem C03c_vocab_in_domain : forall (L : lfmt) (ia : N -> bool) (v : lnarsese)
 Proof. exact vocab_lvalue_ok. Qed.
 Print Assumptions C03c_vocab_in_domain.
 
+(* C02 on the extended domain: format-then-parse of the lexical formatter, under the explicit unambiguity
+   conditions (which vocab_ok's "no keyword inside a name" clause is what derives them from; here names may
+   contain keyword characters, so they stay explicit; they are decidable: C02_unamb_b_sound).  This closes
+   the gap "prefix-only atoms (empty names) are outside C02's domain" for the formats passing the checks *)
+Theorem C03c_lex_roundtrip_extended : forall (L : lfmt) (ia : N -> bool),
+  lex_term_ok L ia = true -> lex_items_ok L = true -> lex_space_ok L ia = true -> lex_clean_ok L ia = true ->
+  lex_clean_atoms_ok L ia = true -> budget_left_nonident ia L = true ->
+  forall v : lnarsese, lvalue_ok ia L v = true -> unamb_top L v -> lex_parse ia L (lex_fmt L v) = LOk v.
+Proof. exact lex_roundtrip2. Qed.
+Print Assumptions C03c_lex_roundtrip_extended.
+
 (* every well-formed enum value's lexical value is in that domain (ASCII, LaTeX) *)
 Theorem C03c_enum_value_in_domain :
   forall (F : Type) (fshow : F -> str) (in01 : F -> bool) (E : efmt) (L : lfmt),
@@ -117,6 +128,19 @@ Theorem C03c_enum_value_in_domain :
   lvalue_ok std_alnum L (Readme.lex_of_narsese F fshow E v) = true /\ unamb_top L (Readme.lex_of_narsese F fshow E v).
 Proof. exact enum_value_in_domain_plain. Qed.
 Print Assumptions C03c_enum_value_in_domain.
+
+(* the formatter route (consolidation + extended C02): the enum formatter prints the lexical formatter's text of
+   lex_of_narsese v, and the lexical parser reads that text back *)
+Theorem C03c_lex_parse_fmt_via_lex_fmt :
+  forall (F : Type) (fshow : F -> str) (in01 : F -> bool) (ia : N -> bool) (E : efmt) (L : lfmt),
+  agree_value_all ia E L = true ->
+  (forall x, in01 x = true -> fshow x <> [] /\ Forall (fun c => is_float_char c = true) (fshow x)) ->
+  unamb_fmt_ok ia E = true -> fmt_space_ok E = true -> arms_cover E = true ->
+  forall v : narsese F, same_layout E L = true -> wf_value ia E v = true -> vals_ok F in01 v = true ->
+  fmt_narsese F fshow E v = lex_fmt L (Readme.lex_of_narsese F fshow E v) /\
+  lex_parse ia L (lex_fmt L (Readme.lex_of_narsese F fshow E v)) = LOk (Readme.lex_of_narsese F fshow E v).
+Proof. exact lex_parse_fmt_via_lex_fmt. Qed.
+Print Assumptions C03c_lex_parse_fmt_via_lex_fmt.
 
 (* ---- 4. general theorems: any pair of records passing the finite checks ---- *)
 (* lexical side: the term written as any surface tree st; name conditions = the enum-side unamb of st written
@@ -276,6 +300,15 @@ Example ex_C03c_hyps :
   vocab_ok LEX_ASCII std_alnum (Readme.lex_of_narsese str toy_show FORMAT_ASCII ex_value_task) = false /\
   vocab_ok LEX_ASCII std_alnum (Readme.lex_of_narsese str toy_show FORMAT_ASCII ex_value_term) = false.
 Proof. exact ex_value_hyps. Qed.
+
+(* Han: the two formatters differ by a space before the stamp (`预算 a。现在` vs `预算 a。 现在`) *)
+Example ex_C03c_han_layout_differs :
+  let v : narsese str := NTask (SJudgement (TName Word [97]%N) TruthEmpty Present, BudgetEmpty) in
+  fmt_narsese str toy_show FORMAT_HAN v = [39044; 31639; 32; 97; 12290; 29616; 22312]%N /\
+  lex_fmt LEX_HAN (Readme.lex_of_narsese str toy_show FORMAT_HAN v) = [39044; 31639; 32; 97; 12290; 32; 29616; 22312]%N /\
+  idealize_env (compile LEX_HAN) (fmt_narsese str toy_show FORMAT_HAN v) =
+  idealize_env (compile LEX_HAN) (lex_fmt LEX_HAN (Readme.lex_of_narsese str toy_show FORMAT_HAN v)).
+Proof. exact ex_han_layout_differs. Qed.
 
 (* `$0.5;0.25$ <rob --> (/, a_b, _, +7)>. :!-5: %1;0.9%` : the text, and -- re-computed -- the lexical value and
    the common result of the two pipelines *)
